@@ -174,6 +174,9 @@ func init() {
 		return fr.e.tb.Or(cs...)
 	})
 	reg("Implies", func(fr *frame, a []Value) Value { return fr.e.tb.Implies(a[0].(*Term), a[1].(*Term)) })
+	for _, n := range []string{"IteU8", "IteU32", "IteU64", "IteInt"} {
+		reg(n, func(fr *frame, a []Value) Value { return fr.e.tb.Ite(a[0].(*Term), a[1].(*Term), a[2].(*Term)) })
+	}
 	reg("Symbolic", func(fr *frame, a []Value) Value { return fr.e.tb.T })
 	reg("Begin", func(fr *frame, a []Value) Value { fr.e.path.writeMark = len(fr.e.undo); return nil })
 	reg("Observe", func(fr *frame, a []Value) Value { return nil })
